@@ -37,6 +37,7 @@ def run(ctx):
     n = meta_rules.rowcount_rule(ctx, 'R2.5', only_modules={'writer', 'api', 'util'})
     ctx.floor('R2.5', 'row_groups/num_rows sites in writer', n, 4)
     n = meta_rules.filepath_rule(ctx, 'R2.6')
+    meta_rules.filepath_text_rule(ctx, 'R2.6')
     ctx.floor('R2.6', 'file_path stores', n, 5)
     # shared rules: the null count of a chunk (C04), the in-place footer rewrite (C16) and the schema
     # annotation of every dtype (C01) are all part of "the metadata describes exactly the bytes present"
@@ -51,6 +52,10 @@ def run(ctx):
     _sa.restore_rule(ctx, 'R2.13')
     r212(ctx)
     r214(ctx)
+    _sa.commit_after_loop_rule(ctx, 'R2.15')
+    _sa.commit_after_loop_multi_rule(ctx, 'R2.15')   # a footer lists only row groups whose pages were all written
+    from . import append_route as _ar
+    _ar.fresh_part_rule(ctx, 'R2.16')   # no part file that a summary already describes is written over
     from . import c07 as _c07
     _c07.r712(ctx, 'R2.10')
     r27(ctx)
